@@ -103,8 +103,10 @@ PROPS = {
     },
     'C02': {
         'rules': ['R-ESC', 'R-VOCAB', 'R-NONE', 'R-GUARD', 'DECOR', 'R-EXPNUM', 'R-LEVELS', 'R-TABS', 'R-ORDERED',
-                  'R-OPTKEY'],
+                  'R-OPTKEY', 'R-FRAME', 'R-STATE'],
         'filter': {'R-GUARD': rule('R-GUARD/BRACKETS'),
+                   'R-FRAME': both(rule('R-FRAME/PURE'), site('treeanalysis.gap_degree', 'trees.')),
+                   'R-STATE': both(rule('R-STATE/G6'), site('treeoutput.')),
                    'R-ORDERED': either(rule('R-ORDERED/DEF'), site('treeoutput.')),
                    'R-OPTKEY': site('treeoutput.', 'trees.get_label')},
         'explanation': 'Decides, for the writers: XML attribute values are escaped and tokens are paren-mapped before '
@@ -116,8 +118,9 @@ PROPS = {
                        'independent decoder recovers the tree, tab-stop widths, terminals output text.',
     },
     'C03': {
-        'rules': ['R-FRAMEFILE', 'R-DISPATCH', 'R-ENC', 'R-NONE', 'R-VOCAB', 'R-AUTOMATON', 'R-OPTKEY', 'R-READER-STATE', 'R-DIRMODE', 'R-OPENMODE'],
+        'rules': ['R-FRAMEFILE', 'R-DISPATCH', 'R-ENC', 'R-NONE', 'R-VOCAB', 'R-AUTOMATON', 'R-OPTKEY', 'R-READER-STATE', 'R-DIRMODE', 'R-OPENMODE', 'R-SIBLING'],
         'filter': {'R-OPENMODE': site('transform.'),
+                   'R-SIBLING': rule('R-SIBLING/GFSPLIT', 'R-SIBLING/PARENS'),
                    'R-AUTOMATON': rule('R-AUTOMATON/A4', 'R-AUTOMATON/A3', 'R-AUTOMATON/FIELDS'),
                    'R-OPTKEY': rule('R-OPTKEY/K3')},
         'explanation': 'Decides, for `treetools transform`: every registry member exists with the arity its dispatch '
@@ -129,8 +132,9 @@ PROPS = {
                        'losslessness of a round trip.',
     },
     'C04': {
-        'rules': ['R-LINK', 'R-KEEP', 'R-ROOT', 'R-FRAME', 'R-STALE', 'R-ORDERED', 'R-FLAGS'],
+        'rules': ['R-LINK', 'R-KEEP', 'R-ROOT', 'R-FRAME', 'R-STALE', 'R-ORDERED', 'R-FLAGS', 'R-HEADS'],
         'filter': {'R-LINK': site('transform.', 'trees.'),
+                   'R-HEADS': rule('R-HEADS/MARK', 'R-HEADS/RANGE'),
                    'R-ORDERED': both(rule('R-ORDERED/RAW'), site('transform.', 'trees.'))},
         'explanation': 'Decides, for every structural transformation: each attach is paired with the parent-pointer '
                        'update on every path and vice versa, each detach is followed by re-attachment or discard, '
@@ -169,8 +173,9 @@ PROPS = {
                        'every rule; ordered accessors used. Does NOT decide: that the linearization reproduces the blocks.',
     },
     'C07': {
-        'rules': ['R-ARITY', 'R-ARGPOS', 'R-INVERSEMAP', 'R-MEMO'],
+        'rules': ['R-ARITY', 'R-ARGPOS', 'R-INVERSEMAP', 'R-MEMO', 'R-ACCUM'],
         'filter': {'R-MEMO': site('grammar', 'trees'),
+                   'R-ACCUM': site('grammar.binarize'),
                    'R-ARGPOS': site('grammar.linsub')},
         'explanation': 'Decides only: binarized rule keys are triples, rank <= 2 rules are stored verbatim under the '
                        'rank test, every label handed out is new (counter incremented before each return), one '
@@ -187,8 +192,9 @@ PROPS = {
                        'Does NOT decide: the numeric balance equation.',
     },
     'C09': {
-        'rules': ['R-MUSTUSE', 'R-ENC', 'R-GUARD', 'R-ACCUM', 'R-IDCOUNTER', 'R-SORTEDPOS', 'R-OPTKEY', 'R-STATE', 'R-LOOPSTRIP', 'R-OPENMODE'],
+        'rules': ['R-MUSTUSE', 'R-ENC', 'R-GUARD', 'R-ACCUM', 'R-IDCOUNTER', 'R-SORTEDPOS', 'R-OPTKEY', 'R-STATE', 'R-LOOPSTRIP', 'R-OPENMODE', 'R-DISCONT'],
         'filter': {'R-OPENMODE': site('grammaroutput.', 'grammar.'),
+                   'R-DISCONT': site('grammaranalysis.'),
                    'R-GUARD': rule('R-GUARD/LOPAR'),
                    'R-ACCUM': either(rule('R-ACCUM/PRINT'), site('grammarinput.', 'grammaroutput.')),
                    'R-ENC': site('grammarinput.', 'grammaroutput.', 'grammar.run'),
@@ -201,8 +207,9 @@ PROPS = {
                        'tested literally and works on a copy. Does NOT decide: textual round trip of RCG/PMCFG.',
     },
     'C10': {
-        'rules': ['R-GUARD', 'R-ORDERED', 'R-STATE', 'R-FRAME', 'R-OPENMODE'],
+        'rules': ['R-GUARD', 'R-ORDERED', 'R-STATE', 'R-FRAME', 'R-OPENMODE', 'R-ENC'],
         'filter': {'R-OPENMODE': site('transitions.', 'transitionoutput.'),
+                   'R-ENC': site('transitions.', 'transitionoutput.'),
                    'R-GUARD': rule('R-GUARD/GAP', 'R-GUARD/TOPDOWN', 'R-GUARD/PLAIN'),
                    'R-ORDERED': either(rule('R-ORDERED/DEF'), site('transitions.')),
                    'R-STATE': both(rule('R-STATE/G1'), site('transitions', 'transitionoutput', 'trees')),
@@ -248,8 +255,10 @@ PROPS = {
                        'that the new parent is the documented one.',
     },
     'C14': {
-        'rules': ['R-ROOT', 'R-LABELEDIT', 'R-GUARD', 'R-LINK', 'R-FLAGS', 'R-RECURSE', 'R-ORDERED'],
+        'rules': ['R-ROOT', 'R-LABELEDIT', 'R-GUARD', 'R-LINK', 'R-FLAGS', 'R-RECURSE', 'R-ORDERED', 'R-STATE', 'R-MEMO'],
         'filter': {'R-RECURSE': site('transform.'),
+                   'R-STATE': both(rule('R-STATE/G1'), site('transform')),
+                   'R-MEMO': site('transform'),
                    'R-ORDERED': both(rule('R-ORDERED/RAW'), site('transform.')),
                    'R-ROOT': site('transform.binarize', 'transform.collapse_unary_chains', 'transform.uncollapse_unary_chains'),
                    'R-LABELEDIT': site('transform._binarize_tree'),
@@ -301,8 +310,9 @@ PROPS = {
                        'Does NOT decide: the sum arithmetic itself.',
     },
     'C18': {
-        'rules': ['R-STATE', 'R-READER-STATE', 'R-ARITY', 'R-FRAME', 'R-ACCUM', 'R-MEMO'],
-        'filter': {'R-ACCUM': rule('R-ACCUM/TASK'),
+        'rules': ['R-STATE', 'R-READER-STATE', 'R-ARITY', 'R-FRAME', 'R-ACCUM', 'R-MEMO', 'R-FRAMEFILE'],
+        'filter': {'R-ACCUM': either(rule('R-ACCUM/TASK', 'R-ACCUM/EXTRACT'), site('grammar.extract', 'grammar.binarize')),
+                   'R-FRAMEFILE': rule('R-FRAMEFILE/ONCE'),
                    'R-ARITY': rule('R-ARITY/UNIQUE'), 'R-FRAME': rule('R-FRAME/PURE')},
         'explanation': 'Decides: the inventory of state outliving a call is exactly the two terminal-file caches (no '
                        'global, no mutable default, no module/class-level write); node ids are read only in Tree; '
